@@ -188,6 +188,25 @@ func c04Mutants(rng *rand.Rand, w *core.World, orig []byte, other []byte) []muta
 		t.Signatures[i].Signer.KeyType = na
 		return true
 	})
+	// signer public key with bytes appended (a decoder that only checks a minimum length truncates it back)
+	add("signer-key-extended", func(t *action.SignedTx) bool {
+		if len(t.Signatures) == 0 || t.Type == action.OLVM {
+			return false
+		}
+		i := rng.Intn(len(t.Signatures))
+		ext := make([]byte, 1+rng.Intn(3))
+		rng.Read(ext)
+		t.Signatures[i].Signer.Data = append(append([]byte{}, t.Signatures[i].Signer.Data...), ext...)
+		return true
+	})
+	add("sig-extended", func(t *action.SignedTx) bool {
+		if len(t.Signatures) == 0 || t.Type == action.OLVM {
+			return false
+		}
+		i := rng.Intn(len(t.Signatures))
+		t.Signatures[i].Signed = append(append([]byte{}, t.Signatures[i].Signed...), byte(rng.Intn(256)))
+		return true
+	})
 	add("sig-flip", func(t *action.SignedTx) bool {
 		if len(t.Signatures) == 0 || len(t.Signatures[0].Signed) == 0 {
 			return false
